@@ -43,3 +43,27 @@ H_ENTRY(h_vtmf_card_text) {
   s2 << d; vf_assert(s2.str() == t1, "re-export yields the identical text");
   H_END();
 }
+
+// key-ring card copied into a USED object of another shape: the object is resized (grow / shrink / rebuild branches of
+// TMCG_Card::resize, the routine behind import, operator>> and operator=) and must afterwards have the new shape and equal the
+// source; shapes are enumerated by slices, all values are symbolic. (The same through the text importer did not close in 15 min.)
+#include "TMCG_Card.hh"
+#ifndef H_K0
+#define H_K0 3
+#define H_W0 2
+#define H_K1 2
+#define H_W1 2
+#endif
+H_ENTRY(h_tmcg_card_resize) {
+  TMCG_Card src(H_K1, H_W1), dst(H_K0, H_W0), r(H_K0, H_W0);
+  for (size_t k = 0; k < H_K1; ++k) for (size_t w = 0; w < H_W1; ++w) vfh_mpz(&src.z[k][w], 0, 4000);
+  for (size_t k = 0; k < H_K0; ++k) for (size_t w = 0; w < H_W0; ++w) { vfh_mpz(&dst.z[k][w], 0, 4000); mpz_set(&r.z[k][w], &dst.z[k][w]); }
+  r.resize(H_K1, H_W1);
+  vf_assert(r.z.size() == H_K1, "resize: number of player rows");
+  for (size_t k = 0; k < r.z.size(); ++k) vf_assert(r.z[k].size() == H_W1, "resize: every row has the requested number of type bits");
+  if (H_W0 == H_W1) for (size_t k = 0; k < H_K1 && k < H_K0; ++k) for (size_t w = 0; w < H_W1; ++w) vf_assert(mpz_cmp(&r.z[k][w], &dst.z[k][w]) == 0, "resize keeps the surviving rows");
+  dst = src;
+  vf_assert(dst.z.size() == H_K1 && dst.z[0].size() == H_W1, "assignment into a used object: shape of the source");
+  vf_assert(dst == src, "assignment into a used object of another shape copies the card");
+  H_END();
+}
